@@ -10,3 +10,16 @@ macro_rules! verif_harness {
         fn $name() $body
     };
 }
+
+// Same, plus the HeaderName::from_bytes model (only for harnesses whose heads use the modelled names).
+macro_rules! verif_harness_hn {
+    ($name:ident, $unwind:expr, $body:block) => {
+        #[kani::proof]
+        #[kani::unwind($unwind)]
+        #[kani::stub(core::slice::memchr::memchr, crate::verif::memchr_naive)]
+        #[kani::stub(core::str::from_utf8, crate::verif::from_utf8_model)]
+        #[kani::stub(std::io::Error::is_interrupted, crate::verif::never_interrupted)]
+        #[kani::stub(http::header::HeaderName::from_bytes, crate::verif::header_name_model)]
+        fn $name() $body
+    };
+}
